@@ -150,7 +150,7 @@ pub fn configs(tier: Tier) -> Vec<InCfg> {
     let mut v = Vec::new();
     let q = |qos: u8, len: u16| T::Pub { qos, id: 0, len, topic: 0, alias: 0 };
     for (ver, role) in [(Ver::V3, Role::Server), (Ver::V5, Role::Server), (Ver::V5, Role::Client)] {
-        let ns: &[u16] = if tier == Tier::Quick { &[1, 2] } else { &[0, 1, 2, 3] };
+        let ns: &[u16] = if tier == Tier::Quick { &[1, 2] } else { &[0, 1, 2, 3, 4] };
         for &n in ns {
             let sizes: &[usize] = if role == Role::Server { &[0, 30, 65535] } else { &[65535] };
             for &sz in sizes {
@@ -235,7 +235,7 @@ pub fn run(tier: Tier) -> i32 {
     for (i, c) in configs(tier).iter().enumerate() {
         ck.explore::<In>("inbound", i, c, &ecfg);
     }
-    ck.rule = "v3 server (default in-flight middleware), v5 server (Receive Maximum + size middleware), v5 client (receive maximum): max_receive in {1,2} (quick) / {0,1,2,3} (thorough) x max_receive_size in {0, 30 bytes, 64 KiB}; bursts of up to 3 (quick) / 4 (thorough) publishes over {q1 5 B, q1 14 B, q0 5 B, q1 12 B split in two writes, q2 26 B} against gated handlers, deliveries and completions in every order with <= 1 injection while runnable; invariants after every step: executing handlers <= max_receive, their packet bytes <= max_receive_size + largest packet; v5: a peer within Receive Maximum is never answered 0x93, also while SUBSCRIBE / UNSUBSCRIBE requests are being handled (gated protocol service); drain: all gates opened => every complete publish handled with its full payload".into();
+    ck.rule = "v3 server (default in-flight middleware), v5 server (Receive Maximum + size middleware), v5 client (receive maximum): max_receive in {1,2} (quick) / {0,1,2,3,4} (thorough) x max_receive_size in {0, 30 bytes, 64 KiB}; bursts of up to 3 (quick) / 4 (thorough) publishes over {q1 5 B, q1 14 B, q0 5 B, q1 12 B split in two writes, q2 26 B} against gated handlers, deliveries and completions in every order with <= 1 injection while runnable; invariants after every step: executing handlers <= max_receive, their packet bytes <= max_receive_size + largest packet; v5: a peer within Receive Maximum is never answered 0x93, also while SUBSCRIBE / UNSUBSCRIBE requests are being handled (gated protocol service); drain: all gates opened => every complete publish handled with its full payload".into();
     ck.assumptions = vec!["FIFO task order of ntex-rt; nondeterminism = timing of environment events (DESIGN 2.4)".into()];
     ck.finish()
 }
